@@ -136,6 +136,7 @@ func (c *Ctx) keyProvenance(fd *ast.FuncDecl, e ast.Expr, defs map[types.Object]
 
 func ruleCanonKey(c *Ctx) {
 	const rule = "canon-key"
+	c.idScopeKey(rule)
 	for _, fd := range c.allFuncDecls() {
 		if fd.Body == nil {
 			continue
@@ -164,6 +165,40 @@ func ruleCanonKey(c *Ctx) {
 			}
 			return true
 		})
+	}
+}
+
+// idScopeKey: the function that registers an id-scoped schema must register it under the very location it
+// hands back as the new base path.
+func (c *Ctx) idScopeKey(rule string) {
+	for _, fd := range c.allFuncDecls() {
+		if fd.Body == nil || fd.Name.Name != "setSchemaID" {
+			continue
+		}
+		c.saw(c.funcName(fd))
+		var key types.Object
+		ast.Inspect(fd.Body, func(n ast.Node) bool {
+			if call, ok := n.(*ast.CallExpr); ok && c.isCacheCall(call, "Set") && len(call.Args) == 2 {
+				if id, ok := unparen(call.Args[0]).(*ast.Ident); ok {
+					key = c.objOf(id)
+				} else {
+					key = nil
+				}
+			}
+			return true
+		})
+		same := key != nil
+		ast.Inspect(fd.Body, func(n ast.Node) bool {
+			if rs, ok := n.(*ast.ReturnStmt); ok && len(rs.Results) > 0 {
+				id, ok := unparen(rs.Results[0]).(*ast.Ident)
+				if !ok || c.objOf(id) != key {
+					same = false
+				}
+			}
+			return true
+		})
+		c.ob(rule, c.funcName(fd)+":key-is-returned-base", fd.Pos(), same,
+			"the id-scoped schema is cached under a key that is not the location returned as the new base path: refs relative to the id miss it, or it overwrites the entry of the enclosing document")
 	}
 }
 
